@@ -2,7 +2,7 @@
    Unproved full-strength statements: C10_ascii_statement, C10_idem_statement, C10_case_statement
    (Proofs/Idna_Hyp.v); see theorem_notes in tools/props_d/C10.py. *)
 From RU Require Import Base.Prelude Base.Utf8 Base.U32_c13 Gen.Tables Model.Punycode Model.Uts46
-  Proofs.Idna_Sim Proofs.Idna_Api Proofs.Idna_Known Proofs.Idna_Hyp.
+  Proofs.Idna_Sim Proofs.Idna_Api Proofs.Idna_Known Proofs.Idna_Hyp Proofs.Idna_Tables.
 
 (* a borrowed result is the input *)
 Theorem C10_borrow : forall A cfg d deny hy dns r, to_ascii A cfg d deny hy dns = Ok (true, r) -> r = d.
@@ -53,14 +53,12 @@ Print Assumptions C10_entry.
 
 (* ASCII / lower case / fixed point, the fastest tier only *)
 Theorem C10_ascii_partial : forall A cfg d deny hy, bytes d -> fast_tier d d = None ->
-  to_ascii A cfg d deny hy DIgnore = Ok (true, d) /\ Forall lower_or_dot d /\
-  to_ascii A cfg d deny hy DIgnore = to_ascii A cfg d deny hy DIgnore.
+  to_ascii A cfg d deny hy DIgnore = Ok (true, d) /\ Forall lower_or_dot d.
 Proof.
-  intros A cfg d deny hy Hb H. split; [exact (to_ascii_fast A cfg d deny hy H)|]. split; [exact (fast_tier_none d Hb d H)|reflexivity].
+  intros A cfg d deny hy Hb H. split; [exact (to_ascii_fast A cfg d deny hy H)|exact (fast_tier_none d Hb d H)].
 Qed.
 Check C10_ascii_partial : forall A cfg d deny hy, bytes d -> fast_tier d d = None ->
-  to_ascii A cfg d deny hy DIgnore = Ok (true, d) /\ Forall lower_or_dot d /\
-  to_ascii A cfg d deny hy DIgnore = to_ascii A cfg d deny hy DIgnore.
+  to_ascii A cfg d deny hy DIgnore = Ok (true, d) /\ Forall lower_or_dot d.
 Print Assumptions C10_ascii_partial.
 
 (* the built-in deny lists contain the upper-case letters (regenerated masks) *)
@@ -68,6 +66,32 @@ Theorem C10_deny_upper : DenyUpper DENY_EMPTY /\ DenyUpper DENY_STD3 /\ DenyUppe
 Proof. exact deny_upper_builtin. Qed.
 Check C10_deny_upper : DenyUpper DENY_EMPTY /\ DenyUpper DENY_STD3 /\ DenyUpper DENY_URL.
 Print Assumptions C10_deny_upper.
+
+(* regenerated constants: DNS limits 253 / 63, Punycode caps 2000 / 1000 *)
+Theorem C10_limits :
+  T_IDNA_DNS_TOTAL = 253 /\ T_IDNA_DNS_LABEL = 63 /\ T_IDNA_DECODE_MAX = 2000 /\ T_IDNA_ENCODE_MAX = 1000.
+Proof. exact idna_limits. Qed.
+Check C10_limits :
+  T_IDNA_DNS_TOTAL = 253 /\ T_IDNA_DNS_LABEL = 63 /\ T_IDNA_DECODE_MAX = 2000 /\ T_IDNA_ENCODE_MAX = 1000.
+Print Assumptions C10_limits.
+
+(* regenerated deny-list masks: upper case, glyphless, the LDH complement, the dot, the URL and EMPTY lists *)
+Theorem C10_masks :
+  T_IDNA_UPPER_MASK = mask_of is_upper /\
+  T_IDNA_GLYPHLESS_MASK = mask_of (fun b => (b <=? 32) || (b =? 127)) /\
+  T_IDNA_LDH_MASK = mask_of (fun b => negb (is_lower b || is_digit b || (b =? 45) || (b =? 46))) /\
+  T_IDNA_DOT_MASK = N.shiftl 1 46 /\
+  T_IDNA_URL_GLYPHLESS = true /\ T_IDNA_URL_LIST = [37; 35; 47; 58; 60; 62; 63; 64; 91; 92; 93; 94; 124] /\
+  T_IDNA_EMPTY_GLYPHLESS = false /\ T_IDNA_EMPTY_LIST = [].
+Proof. exact idna_masks. Qed.
+Check C10_masks :
+  T_IDNA_UPPER_MASK = mask_of is_upper /\
+  T_IDNA_GLYPHLESS_MASK = mask_of (fun b => (b <=? 32) || (b =? 127)) /\
+  T_IDNA_LDH_MASK = mask_of (fun b => negb (is_lower b || is_digit b || (b =? 45) || (b =? 46))) /\
+  T_IDNA_DOT_MASK = N.shiftl 1 46 /\
+  T_IDNA_URL_GLYPHLESS = true /\ T_IDNA_URL_LIST = [37; 35; 47; 58; 60; 62; 63; 64; 91; 92; 93; 94; 124] /\
+  T_IDNA_EMPTY_GLYPHLESS = false /\ T_IDNA_EMPTY_LIST = [].
+Print Assumptions C10_masks.
 
 Example C10_premises_hold :
   to_ascii toy true [65; 98; 46; 99] DENY_URL HAllow DVerify = Ok (false, [97; 98; 46; 99]) /\
